@@ -4,7 +4,8 @@
    AT from (recoveryconsumer.go:299, strict >) — C07_cover_full_refuted / C07_cover_partial; known finding F6. *)
 From Coq Require Import List ZArith Bool.
 From FB Require Import Model.Tracker Model.Recovery Judge.E4
-  Proofs.RecoveryProofs Proofs.RecoveryOwnership Proofs.RecoveryTruncation Proofs.RecoveryCover Proofs.RecoveryCoverFinal.
+  Proofs.RecoveryProofs Proofs.RecoveryOwnership Proofs.RecoveryTruncation Proofs.RecoveryCover Proofs.RecoveryCoverFinal
+  Proofs.RecoverySpecSound.
 Import ListNotations.
 Open Scope Z_scope.
 
@@ -125,7 +126,18 @@ Proof. exact request_is_fresh. Qed.
 Example C07_fresh_request_inhabited : fresh_request (fst (rstep f6_cfg init_state (Request 1 10 20))) 1 10 20.
 Proof. exact fresh_request_inhabited. Qed.
 
+(* SOUNDNESS OF THE DECISION PROCEDURE spec_c07 (Judge/E4.v) FOR THE MODEL - partial: the per-op clauses 2 (flags and
+   window), 3 (completion) and 4 (truncation), evaluated on the model's own observations, never fail, for EVERY
+   configuration and EVERY op list (chaos included).  Not proved sound (only exercised by the runs): clause 1
+   (coverage, cover_fails under the watched guard) and clause 5 (nothing outside the request window) - their content
+   is proved on the model directly (C07_cover_partial, C07_window), the link through cover_of / watched is not. *)
+Theorem C07_spec_sound_partial : forall cfg ops,
+  let l := model_l cfg init_state ops in
+  scan c07_flags ops obs0 l = [] /\ scan c07_complete ops obs0 l = [] /\ scan c07_trunc ops obs0 l = [].
+Proof. exact spec_c07_clauses_234_sound. Qed.
+
 Print Assumptions C07_window.
+Print Assumptions C07_spec_sound_partial.
 Print Assumptions C07_window_pump.
 Print Assumptions C07_flags.
 Print Assumptions C07_main_never_flagged.
